@@ -79,7 +79,7 @@ def load_fwf(
                     parsed_row[return_original_row] = previous_row
                 successfully_parsed_rows.append(parsed_row)
             else:
-                failed_rows.append(i, *parsed_row)
+                failed_rows.append((i, *parsed_row))
         previous_row = row
     if previous_row:
         parsed_row = parse_fwf_row(previous_row, footer_format, validate)
